@@ -42,7 +42,32 @@ type c08Ev struct {
 	Res string `json:"res,omitempty"`
 	C   int    `json:"c"`
 	St  int    `json:"st"`
+	N0  int    `json:"n0"` // nb event: the 4 bytes behind the lock word before / after the case
+	N1  int    `json:"n1"`
 }
+
+// The lock under test never lives alone: it is the first field of a cell whose next 4 bytes are
+//   layout 0: zero, layout 1: a non-zero datum, layout 2: another Spinlock that is held throughout
+// (lock operations must neither look at nor touch those bytes).
+type c08Cell struct {
+	l  Spinlock
+	nb Spinlock
+}
+
+const c08Datum = 0x00010001
+
+func c08NewCell(layout int) *c08Cell {
+	c := &c08Cell{}
+	switch layout % 3 {
+	case 1:
+		atomic.StoreUint32(&c.nb.state, c08Datum)
+	case 2:
+		c.nb.Acquire()
+	}
+	return c
+}
+
+func c08Neighbour(c *c08Cell) int { return int(atomic.LoadUint32(&c.nb.state)) }
 
 func c08Deadline() time.Duration {
 	if s, err := strconv.Atoi(os.Getenv("VERIF_C08_DEADLINE_MS")); err == nil && s > 0 {
@@ -66,7 +91,8 @@ type c08Worker struct {
 }
 
 type c08Case struct {
-	lock    Spinlock
+	cell    *c08Cell
+	lock    *Spinlock
 	counter int
 	cleanup int32
 	w       []*c08Worker
@@ -77,7 +103,7 @@ type c08Case struct {
 
 func (cs *c08Case) emit(e c08Ev) { cs.enc.Encode(e); *cs.n++ }
 
-func (cs *c08Case) probe() { cs.emit(c08Ev{K: "probe", St: c08LockWord(&cs.lock)}) }
+func (cs *c08Case) probe() { cs.emit(c08Ev{K: "probe", St: c08LockWord(cs.lock)}) }
 
 func (cs *c08Case) run(w *c08Worker) {
 	for cmd := range w.cmd {
@@ -169,6 +195,7 @@ func (cs *c08Case) replay(sched [][2]interface{}, grace time.Duration) bool {
 		case "await":
 			if !w.logged {
 				t0 := time.Now()
+				handovers, nextProbe := 0, time.Duration(0)
 				for {
 					cs.poll(sched[i:])
 					w = cs.w[cs.role[t]]
@@ -176,8 +203,24 @@ func (cs *c08Case) replay(sched [][2]interface{}, grace time.Duration) bool {
 						break
 					}
 					if time.Since(t0) > c08Deadline() {
-						cs.emit(c08Ev{K: "stuck", T: t, Op: "acq"})
+						cs.emit(c08Ev{K: "stuck", T: t, Op: "acq", C: handovers})
 						return false
+					}
+					if waited := time.Since(t0); waited > 50*time.Millisecond && waited > nextProbe {
+						// The awaited Acquire is overdue.  A third party (task 0) tries the lock: if it gets it the
+						// lock is provably free while the waiter still waits.  These are ordinary lock operations
+						// and are recorded as such; how many of them succeeded goes into the stuck record.
+						nextProbe = waited + time.Millisecond
+						if cs.lock.TryToAcquire() {
+							c := cs.counter
+							cs.emit(c08Ev{K: "call", T: 0, Op: "try", Res: "ok"})
+							cs.emit(c08Ev{K: "ok", T: 0, C: c})
+							cs.counter = c + 1
+							cs.emit(c08Ev{K: "rel", T: 0})
+							cs.lock.Release()
+							cs.emit(c08Ev{K: "relret", T: 0})
+							handovers++
+						}
 					}
 					runtime.Gosched()
 				}
@@ -291,7 +334,9 @@ func TestVerifC08Sched(t *testing.T) {
 		if err := json.Unmarshal(line, &sched); err != nil {
 			t.Fatalf("bad case %q: %v", line, err)
 		}
-		cs := &c08Case{role: map[int]int{}, enc: enc, n: &nev}
+		cs := &c08Case{role: map[int]int{}, enc: enc, n: &nev, cell: c08NewCell(ncases)}
+		cs.lock = &cs.cell.l
+		nb0 := c08Neighbour(cs.cell)
 		for i := 0; i < 3; i++ {
 			w := &c08Worker{cmd: make(chan string, 2), reply: make(chan bool, 1)}
 			cs.w = append(cs.w, w)
@@ -302,6 +347,7 @@ func TestVerifC08Sched(t *testing.T) {
 			}(w)
 		}
 		good := cs.replay(sched, grace)
+		cs.emit(c08Ev{K: "nb", N0: nb0, N1: c08Neighbour(cs.cell)})
 		cs.emit(c08Ev{K: "reset"})
 		ncases++
 		if !good || !cs.finish() {
@@ -348,7 +394,9 @@ func TestVerifC08Stress(t *testing.T) {
 		if light && master.Intn(3) != 0 {
 			nth = 16
 		}
-		var lock Spinlock
+		cell := c08NewCell(2*w + w/2)
+		lock := &cell.l
+		nb0 := c08Neighbour(cell)
 		var counter int // protected by lock only
 		var seq int64
 		logs := make([][]c08Ev, nth)
@@ -457,8 +505,9 @@ func TestVerifC08Stress(t *testing.T) {
 			e.St = -1
 			enc.Encode(e)
 		}
+		enc.Encode(c08Ev{K: "nb", N0: nb0, N1: c08Neighbour(cell)})
 		enc.Encode(c08Ev{K: "reset"})
-		total += len(evs) + 1
+		total += len(evs) + 2
 	}
 	os.Stdout.WriteString("VERIF-STATS windows=" + strconv.Itoa(nwin) + " events=" + strconv.Itoa(total) + "\n")
 }
